@@ -125,3 +125,20 @@ Lemma thr0_kinds :
 Proof. vm_compute. repeat split; reflexivity. Qed.
 Lemma thr0_faithful : forall e, In e (fst thr0_run) -> ofaithful thr0_t1 thr0_t2 e.
 Proof. apply orun_faithful; [cbn; lia|reflexivity|reflexivity]. Qed.
+
+(* ---- finding K17 carries over: ['a','b','a','b'] -> ['c','a','b','b','a'] in default alignment mode has
+   values_changed root[3]: 'b' -> 'b' (an item removed and an equal item added at one index, merged) ---- *)
+Definition ok17_t1 : ovalue := OList (map (fun ch => OAtom (AStr [ch])) [97; 98; 97; 98]%N).
+Definition ok17_t2 : ovalue := OList (map (fun ch => OAtom (AStr [ch])) [99; 97; 98; 98; 97]%N).
+Lemma ok17_refuted :
+  exists e, In e (fst (orun (fun _ => []) (fun _ _ => []) Diff.DiffFaithful.k17_ops (mkCfg false 33 100 true) ok17_t1 ok17_t2)) /\
+            oekind e = OK KValue /\ oet1 e = oet2 e /\ oet1 e <> None.
+Proof.
+  destruct Diff.DiffFaithful.changed_value_differs_refuted as (e & He & K & E).
+  exists (dec_entry e). split.
+  - unfold orun. cbn [fst]. apply in_map. unfold tagfix. apply in_or_app. left. apply filter_In. split.
+    + exact He.
+    + unfold class_split. rewrite K. reflexivity.
+  - revert He K E. vm_compute. intros He K E.
+    repeat (destruct He as [<-|He]; [try discriminate K; try discriminate E; repeat split; try reflexivity; discriminate|]). destruct He.
+Qed.
